@@ -109,6 +109,9 @@ def run(tier):
         before = m['files']
         if r['sanitizer'] or r['kind'] != 'exit':
             why = 'run ends with %s(%s) %s' % (r['kind'], r['code'], r['stderr_head'])
+        elif r['inv'] & (256 | 1024 | 2048):
+            from lib import sched as _s
+            why = 'invariant broken: ' + _s.inv_text(r['inv'] & (256 | 1024 | 2048))
         elif md is not None:
             verdicts += 1
             name, on = m['name'], m['out']
